@@ -10,6 +10,8 @@
       seek w p o  t = base w p + o  (base: 0 | rpos for SFM_READ, wpos otherwise | frames.length);
                   t < 0: −1, nothing moves;  else t is returned and rpos / wpos / both := t
       truncate n  frames = upTo zero frames n;  rpos = wpos = n
+                  (promised only where the route has `ftruncate`; through SF_VIRTUAL_IO the command is a refused
+                   call — return value 1, nothing changes — and stands for no abstract operation: `ROp.toAOp`)
 
   The abstraction map `absOf : H → Store → AbsFile (List Byte)` (SfProofs/RdwrInv.lean) reads the frames off the
   store's data section — one frame = `bw` stored bytes, so the map is independent of the caller's sample type and of
@@ -18,8 +20,10 @@
   `decodeAll` of the stored frames; with C01's lossless side condition the two cancel (`write_then_read`).
 
   `RwInv` (SfProofs/RdwrInv.lean) is the invariant: HInv's sign conditions, `0 ≤ frames`, data offset = the header
-  length the container writes, no PEAK table, `dataend = 0`, the store is header region ++ exactly `frames` whole
-  frames, and the descriptor position agrees with the pointer the last operation used.
+  length the container writes, a PEAK table (if any) of one entry per channel in front of the data (`PeakOk`),
+  `dataend = 0` (RAW, AU), the store is header region ++ exactly `frames`
+  whole frames ++ at most the zero pad byte behind an odd-length WAV data chunk (`TailOk`), and the descriptor position
+  agrees with the pointer the last operation used.
   Containers: RAW, AU, WAV as modelled in SfModel/Handle.lean; every sample-granular encoding they offer.
 -/
 import SfProofs.RdwrCor
@@ -50,7 +54,13 @@ theorem RwInv_initial_tight (ix : Nat) (s0 : Store) (fmt : Nat) (ch sr : Int) (h
     RwInv { h with canTruncate := b } s :=
   (RwInv_open ix s0 fmt ch sr h s ho ht).setTruncate b
 
-/-- every call of the alphabet preserves it (truncate: on routes where `ftruncate` works) -/
+/-- … or "padded": tight up to the single zero pad byte behind an odd-length WAV data chunk -/
+theorem RwInv_initial_padded (ix : Nat) (s0 : Store) (fmt : Nat) (ch sr : Int) (h : H) (s : Store)
+    (ho : openHandle ix s0 .rw fmt ch sr = .ok h s) (ht : OpenPadded h s) (b : Bool) :
+    RwInv { h with canTruncate := b } s :=
+  (RwInv_open_padded ix s0 fmt ch sr h s ho ht).setTruncate b
+
+/-- every call of the alphabet preserves it, on every route -/
 theorem RwInv_preserved (h : H) (s : Store) (op : ROp) (inv : RwInv h s) (hok : op.ok h) :
     RwInv (stepAny h s (op.toOp h)).1 (stepAny h s (op.toOp h)).2.1 :=
   (rdwr_step h s op inv hok).2.1
@@ -63,7 +73,9 @@ theorem RwInv_reachable (h : H) (s : Store) (ops : List ROp) (inv : RwInv h s) (
 /-- it implies C05's `HInv`, and says in plain terms: -/
 theorem RwInv_gives (h : H) (s : Store) (inv : RwInv h s) :
     HInv h s ∧ h.mode = .rw ∧ 0 ≤ h.rpos ∧ 0 ≤ h.wpos ∧ 0 ≤ h.frames ∧ h.dataoffset = (hdrLenOf h : Nat) ∧
-    h.peak = none ∧ h.dataend = 0 ∧ (s.bytes.length : Int) = h.dataoffset + h.frames * (h.bw : Int) ∧
+    PeakOk h ∧ (h.container ≠ .wav → h.dataend = 0) ∧
+    (∃ t : Nat, (s.bytes.length : Int) = h.dataoffset + h.frames * (h.bw : Int) + t ∧
+      (t = 0 ∨ (t = 1 ∧ h.container = .wav)) ∧ s.bytes.drop (s.bytes.length - t) = zeros t) ∧
     ((absOf h s).frames.length : Int) = h.frames ∧ ((absOf h s).rpos : Int) = h.rpos ∧
     ((absOf h s).wpos : Int) = h.wpos ∧ (∀ g ∈ (absOf h s).frames, g.length = h.bw) :=
   let g := inv.gives
@@ -75,9 +87,14 @@ theorem RwInv_gives (h : H) (s : Store) (inv : RwInv h s) :
 /-- ONE STEP.  From any state satisfying the invariant, every call of the alphabet — read `k` frames (items or
     frames variant, any caller type), write a whole-frame buffer, seek (3 whence × {plain, SFM_READ, SFM_WRITE}, any
     offset), SFC_FILE_TRUNCATE to `n`, and the flag commands incl. SFC_UPDATE_HEADER_NOW / _AUTO —
-    answers what the abstract operation answers (`ROp.outOk`), keeps the invariant, and commutes with `absOf`. -/
+    answers what the abstract operation answers (`ROp.outOk`), keeps the invariant, and commutes with `absOf`.
+    FULL strength: every route.  `op.ok` only asks that a write buffer holds whole frames (an unaligned items call is an
+    invalid call, C09).  Since the TRUNC-VIO repair SFC_FILE_TRUNCATE needs no side condition: where the route has no
+    `ftruncate` (SF_VIRTUAL_IO) it is refused before anything is touched — answer 1, no error — and `ROp.toAOp` maps it
+    to no abstract operation; the abstract file of the statement promises truncation only where the route supports it.
+    (Before the repair the theorem needed `canTruncate` for truncate: `rdwr_refines_old_rule`.) -/
 theorem rdwr_refines (h : H) (s : Store) (op : ROp) (inv : RwInv h s) (hok : op.ok h) :
-    op.outOk h (absOf h s) (stepAny h s (op.toOp h)).2.2 ∧
+    op.outOk h s (absOf h s) (stepAny h s (op.toOp h)).2.2 ∧
     RwInv (stepAny h s (op.toOp h)).1 (stepAny h s (op.toOp h)).2.1 ∧
     absOf (stepAny h s (op.toOp h)).1 (stepAny h s (op.toOp h)).2.1 =
       (absOf h s).stepOpt (zeroFrame h.bw) (op.toAOp h) :=
@@ -126,13 +143,14 @@ theorem write_puts_values (h : H) (s : Store) (inv : RwInv h s) (ty : Ty) (fc : 
       (fun v hvx => hl v (hsub x hx v hvx)))
 
 /-- … and a read of `k` frames returns the frames `rpos … rpos+k` of that view (as many as exist), the rest of the
-    requested region untouched (or zero when the read position was at / after the end) -/
+    requested region untouched — or zero when the read position was at / after the end, and (`readFill`) when the
+    request ran past the end of a WAV of 1-byte samples into the pad byte behind its odd-length data -/
 theorem read_returns_values (h : H) (s : Store) (inv : RwInv h s) (ty : Ty) (fc : Bool) (k : Nat) (hk : 0 < k) :
     let r := stepAny h s ((ROp.read ty fc k).toOp h)
     let got := ((absValues h s ty).drop (absOf h s).rpos).take k
     r.2.2.ret = callCount h fc got.length ∧ r.2.2.err = 0 ∧
     r.2.2.data = got.flatten ++ List.replicate ((k - got.length) * h.ch)
-      (if (absOf h s).rpos < (absOf h s).frames.length then pattern ty else 0) :=
+      (if (absOf h s).rpos < (absOf h s).frames.length then readFill h s ty k got.length else 0) :=
   read_values_core h s inv ty fc k hk
 
 /-- `overwrite_keeps_length`: writing inside existing data replaces exactly the frames `wpos … wpos+k` and leaves
@@ -221,6 +239,14 @@ theorem truncate_shortens (h : H) (s : Store) (inv : RwInv h s) (n : Nat) (hc : 
   · rw [f]; exact AbsFile.upTo_of_le _ _ _ hle
   · rw [f]; exact AbsFile.truncate_keeps _ _ _ _ hi hl
 
+/-- … and where the route has no `ftruncate` (SF_VIRTUAL_IO) the command is refused: it returns 1 with no error, the
+    handle is unchanged up to the cleared error field — frame count and both positions included — and the store, hence
+    the abstract file, is untouched (since the TRUNC-VIO repair) -/
+theorem truncate_refused_without_ftruncate (h : H) (s : Store) (inv : RwInv h s) (n : Nat) (hc : h.canTruncate = false) :
+    let r := stepAny h s ((ROp.truncate n).toOp h)
+    r.2.2.ret = 1 ∧ r.2.2.err = 0 ∧ r.1 = { h with error := 0 } ∧ r.2.1 = s ∧ absOf r.1 r.2.1 = absOf h s :=
+  truncate_refused_effect h s n inv.gives.1 hc
+
 /-- `untouched_preserved`: a write changes no frame outside `wpos … wpos+k` -/
 theorem untouched_preserved (h : H) (s : Store) (inv : RwInv h s) (ty : Ty) (fc : Bool) (data : List Int)
     (hmod : data.length % h.ch = 0) (hpos : 0 < data.length) (i : Nat) (hi : i < (absOf h s).frames.length)
@@ -256,23 +282,24 @@ theorem reopen_reads_final (h : H) (s : Store) (inv : RwInv h s) (fmt : Nat) (ch
 
 /-- the "pre-populated file" of the statement: close, then open SFM_RDWR again — the open succeeds, the new handle
     satisfies the invariant (so every theorem above applies to the second session), it stands for the final frames
-    with the read position at 0 and the write position at the end.  WAV: when no pad byte follows the data (`NoPad`). -/
+    with the read position at 0 and the write position at the end.  FULL strength for RAW, AU and WAV: a WAV whose
+    odd-length data is followed by the pad byte is covered (the invariant admits that zero byte). -/
 theorem reopen_rdwr_continues (h : H) (s : Store) (inv : RwInv h s) (fmt : Nat) (ch sr : Int) (cfg : CfgOf fmt ch sr h)
-    (hsr : sr ≤ 0x7FFFFFFF) (hguard : h.container = .wav → h.frames * (h.bw : Int) < 0xFFFFFFFF) (hnp : NoPad h)
+    (hsr : sr ≤ 0x7FFFFFFF) (hguard : h.container = .wav → h.frames * (h.bw : Int) < 0xFFFFFFFF)
     (ix pos : Nat) :
     ∃ h' s', openHandle ix ⟨(closeHandle h s).bytes, pos⟩ .rw fmt ch sr = .ok h' s' ∧ RwInv h' s' ∧
       absOf h' s' = { frames := (absOf h s).frames, rpos := 0, wpos := (absOf h s).frames.length } ∧
       h'.frames = h.frames ∧ h'.ch = h.ch ∧ h'.enc = h.enc :=
-  reopen_rw_effect h s inv cfg hsr hguard hnp ix pos
+  reopen_rw_effect h s inv cfg hsr hguard ix pos
 
 /-- the other "pre-populated file": one written by a write-only session (open SFM_WRITE on a new file, any valid write
     calls and header updates, close — the sessions of C04 / C07).  Opened SFM_RDWR it satisfies the invariant and stands
-    for exactly the frames written, read position 0, write position at the end.  Excluded (`hex`): WAV float/double
-    (such a file carries a PEAK chunk) and WAV data ending on an odd offset (pad byte). -/
+    for exactly the frames written, read position 0, write position at the end.  FULL strength for RAW, AU and WAV:
+    WAV float/double files (they carry a PEAK chunk: the invariant admits a PEAK table in front of the data) and WAVs
+    whose odd-length data is followed by the pad byte are covered; `hex` is only the 4 GiB RIFF limit. -/
 theorem prepopulated_opens_rdwr (ix fmt : Nat) (ch sr : Int) (h0 : H) (s0 : Store) (ops : List SOp)
     (ho : openHandle ix {} .w fmt ch sr = .ok h0 s0) (hsr : sr ≤ 0x7FFFFFFF) (hv : ∀ op ∈ ops, op.valid ch.toNat)
-    (hex : ∀ c, openCfg fmt ch sr = some c → c.hasPeak = false ∧
-      (c.container = .wav → (sessData c ops).length < 0xFFFFFFFF ∧ (c.hdrLen + (sessData c ops).length) % 2 = 0))
+    (hex : ∀ c, openCfg fmt ch sr = some c → c.container = .wav → (sessData c ops).length < 0xFFFFFFFF)
     (ix' pos : Nat) :
     ∃ c h' s', openCfg fmt ch sr = some c ∧
       openHandle ix' ⟨(closeHandle (runS (h0, s0) ops).1 (runS (h0, s0) ops).2).bytes, pos⟩ .rw fmt ch sr = .ok h' s' ∧
@@ -319,35 +346,45 @@ theorem rdwr_session (ix : Nat) (s0 : Store) (fmt : Nat) (ch sr : Int) (h : H) (
 
 /-! ## where the side conditions are needed (full statements, witnesses, what was proved instead) -/
 
-/-- the one-step theorem without the `ftruncate` side condition on truncate -/
-def rdwr_refines_full : Prop :=
-  ∀ (h : H) (s : Store) (op : ROp), RwInv h s → (∀ ty fc data, op = .write ty fc data → data.length % h.ch = 0) →
-    RwInv (stepAny h s (op.toOp h)).1 (stepAny h s (op.toOp h)).2.1 ∧
-    absOf (stepAny h s (op.toOp h)).1 (stepAny h s (op.toOp h)).2.1 = (absOf h s).stepOpt (zeroFrame h.bw) (op.toAOp h)
-
 def tS : Store := { bytes := [1, 0, 2, 0], pos := 0 }
+/-- a 2-frame 16-bit mono RAW file opened RDWR through virtual I/O (`canTruncate = false`) -/
 def tH : H := { store := 0, mode := .rw, container := .raw, enc := .pcm ⟨16, false, false⟩, big := false, ch := 1,
                 sr := 8000, fmtWord := 0x040002, frames := 2, wpos := 2, lastOp := .rw, haveWritten := true,
                 datalength := 4, filelength := 4 }
 theorem tH_opened : openHandle 0 tS .rw 0x040002 1 8000 = .ok tH tS := by rfl
+theorem tH_inv : RwInv tH tS := RwInv_initial_raw 0 tS 0x040002 1 8000 tH tS tH_opened rfl (by decide) false
 
-/-- witness (virtual I/O, `canTruncate = false`): SFC_FILE_TRUNCATE to 3 frames on a 2-frame file returns −1 with
-    SFE_SYSTEM, but `sf.frames` is 3 afterwards while the store still holds 2 frames — C09
-    `truncate_minus_one_sets_frames` is the same staging defect.  Real library, same script: `ret=-1 err=2`, then
-    `frames=3`, store 4 bytes. -/
-theorem rdwr_refines_full_fails : ¬ rdwr_refines_full := by
-  intro hfull
-  have inv : RwInv tH tS := RwInv_initial_raw 0 tS 0x040002 1 8000 tH tS tH_opened rfl (by decide) false
-  have i' := (hfull tH tS (.truncate 3) inv (fun _ _ _ hc => by cases hc)).1
-  have := i'.gives.2.2.2.2.2.2.2.2.2.1
-  revert this
-  decide
+/-- NEW RULE on the old witness: SFC_FILE_TRUNCATE to 3 frames through virtual I/O is refused — 1, no error, handle and
+    store as they were, invariant kept (an instance of `rdwr_refines` / `truncate_refused_without_ftruncate`).
+    Repaired library, same script: `ret=1 err=0`, then `frames=2`, store 4 bytes. -/
+theorem truncate_vio_witness_new_rule :
+    stepAny tH tS ((ROp.truncate 3).toOp tH) = ({ tH with error := 0 }, tS, { ret := 1 }) ∧
+    RwInv (stepAny tH tS ((ROp.truncate 3).toOp tH)).1 (stepAny tH tS ((ROp.truncate 3).toOp tH)).2.1 :=
+  ⟨by rfl, RwInv_preserved tH tS (.truncate 3) tH_inv trivial⟩
 
-/-- what holds: `rdwr_refines` — every call except SFC_FILE_TRUNCATE on a route without `ftruncate` -/
-theorem rdwr_refines_partial (h : H) (s : Store) (op : ROp) (inv : RwInv h s) (hok : op.ok h) :
-    RwInv (stepAny h s (op.toOp h)).1 (stepAny h s (op.toOp h)).2.1 ∧
-    absOf (stepAny h s (op.toOp h)).1 (stepAny h s (op.toOp h)).2.1 = (absOf h s).stepOpt (zeroFrame h.bw) (op.toAOp h) :=
-  (rdwr_step h s op inv hok).2
+/-- OLD RULE (before the TRUNC-VIO repair, `stepTruncateOld`): the same call returned −1 with SFE_SYSTEM, but `sf.frames`
+    was 3 afterwards while the store still held 2 frames, so the invariant was lost and the one-step theorem had to
+    exclude truncate on routes without `ftruncate` (it was `rdwr_refines_partial`; C09
+    `truncate_minus_one_sets_frames_old_rule` is the same staging defect).  Unrepaired library, same script:
+    `ret=-1 err=2`, then `frames=3`, store 4 bytes. -/
+theorem rdwr_refines_old_rule :
+    (stepTruncateOld tH tS 3).2.2.ret = -1 ∧ (stepTruncateOld tH tS 3).2.2.err = 2 ∧
+    (stepTruncateOld tH tS 3).1.frames = 3 ∧ (stepTruncateOld tH tS 3).2.1.bytes.length = 4 ∧
+    ¬ RwInv (stepTruncateOld tH tS 3).1 (stepTruncateOld tH tS 3).2.1 := by
+  refine ⟨by decide, by decide, by decide, by decide, ?_⟩
+  intro i'
+  obtain ⟨t, h1, _, _⟩ := i'.gives.2.2.2.2.2.2.2.2.2.1
+  have e1 : (stepTruncateOld tH tS 3).2.1.bytes.length = 4 := by decide
+  have e2 : (stepTruncateOld tH tS 3).1.dataoffset = 0 := by decide
+  have e3 : (stepTruncateOld tH tS 3).1.frames = 3 := by decide
+  have e4 : (stepTruncateOld tH tS 3).1.bw = 2 := by decide
+  rw [e1, e2, e3, e4] at h1
+  omega
+
+/-- on routes where `ftruncate` works the repair changed nothing -/
+theorem truncate_rule_unchanged_with_ftruncate (h : H) (s : Store) (f : Int) (hc : h.canTruncate = true) :
+    stepTruncate h s f = stepTruncateOld h s f :=
+  stepTruncate_eq_old h s f hc
 
 /-- "every successful RDWR open establishes the invariant" -/
 def RwInv_initial_full : Prop :=
@@ -364,20 +401,27 @@ theorem pH_opened : openHandle 0 pS .rw 0x040002 1 8000 = .ok pH pS := by rfl
     frame, but a write past the end makes it one: seek the write pointer to 3, write one frame — frame 1 is then
     `77 00`, not the zero frame the abstract file puts into a hole.  (Real library, same script: read-back
     `6655 0077 0000 0007`.)  Not a defect of the library: the content of a hole is not promised by the property;
-    it is the reason the refinement needs "nothing but whole frames behind the header". -/
+    it is the reason the refinement needs "nothing but whole frames (and the WAV pad byte) behind the header". -/
 theorem RwInv_initial_full_fails : ¬ RwInv_initial_full := by
   intro hfull
-  have := (hfull 0 pS 0x040002 1 8000 pH pS pH_opened).gives.2.2.2.2.2.2.2.2.2.1
-  revert this
-  decide
+  obtain ⟨t, h1, h2, _⟩ := (hfull 0 pS 0x040002 1 8000 pH pS pH_opened).gives.2.2.2.2.2.2.2.2.2.1
+  have e1 : pS.bytes.length = 3 := by decide
+  have e2 : pH.dataoffset = 0 := by decide
+  have e3 : pH.frames = 1 := by decide
+  have e4 : pH.bw = 2 := by decide
+  rw [e1, e2, e3, e4] at h1
+  rcases h2 with h0 | ⟨_, hw⟩
+  · omega
+  · exact absurd hw (by decide)
 
 theorem partial_frame_hole_not_zero :
     (runR pH pS [.seek .set .wr 3, .write .s16 true [7]]).2.bytes = [0x55, 0x66, 0x77, 0, 0, 0, 7, 0] := by decide
 
-/-- what holds: `RwInv_initial_tight` (and its instances `RwInv_initial_new`, `RwInv_initial_raw`).  NOT covered, and
-    not claimed: a pre-populated WAV whose odd-length data chunk is followed by the pad byte (`dataend ≠ 0`) and a WAV
-    float file carrying a PEAK chunk (`peak ≠ none`; files written in SFM_WRITE mode have one, files created in
-    SFM_RDWR mode do not).  For files an RDWR session left behind `reopen_rdwr_continues` proves tightness. -/
+/-- what holds: `RwInv_initial_tight` / `RwInv_initial_padded` (and the instances `RwInv_initial_new`,
+    `RwInv_initial_raw`).  `OpenPadded` admits the WAV pad byte and a PEAK table in front of the data.  NOT covered:
+    files with other bytes behind the data (a partial frame, a PEAK chunk at the END of a foreign WAV, a LIST chunk …).
+    For files the library wrote — by an RDWR session (`reopen_rdwr_continues`) or a write-only session
+    (`prepopulated_opens_rdwr`) — the shape is proved, not assumed. -/
 theorem RwInv_initial_partial (ix : Nat) (s0 : Store) (fmt : Nat) (ch sr : Int) (h : H) (s : Store)
     (ho : openHandle ix s0 .rw fmt ch sr = .ok h s) (ht : OpenTight h s) : RwInv h s :=
   RwInv_open ix s0 fmt ch sr h s ho ht
@@ -430,6 +474,11 @@ example :
     (runR st.1 st.2 [.seek .cur .both 0]).1.rpos = 1 ∧ (runR st.1 st.2 [.seek .cur .both 0]).1.wpos = 1 ∧
     (stepAny st.1 st.2 ((ROp.seek .cur .rd (-5)).toOp eH)).2.2.ret = -1 := by decide
 
+/-- truncate_refused_without_ftruncate: the same handle on virtual I/O: 3 frames stay 3 frames, positions stay -/
+example :
+    let st := runR { eH with canTruncate := false } {} [.write .s16 true [1, 2, 3, 4, 5, 6], .seek .set .rd 1, .truncate 1]
+    st.1.frames = 3 ∧ st.1.rpos = 1 ∧ st.1.wpos = 3 ∧ st.2.bytes.length = 12 := by decide
+
 /-- truncate_shortens / reopen_sees_final: 3 frames, truncate to 1, close, re-open read-only: 1 frame, the first one -/
 example :
     let st := runR eH {} [.write .s16 true [1, 2, 3, 4, 5, 6], .truncate 1]
@@ -438,21 +487,33 @@ example : CfgOf 0x040002 2 8000 eH :=
   let c := open_rw_cfg 0 {} 0x040002 2 8000 _ _ eH_opened (Or.inl rfl)
   ⟨c.cont, c.enc, c.big, c.fmtWord, c.chr, c.srr, c.hch, c.hsr⟩
 
-/-- `reopen_rdwr_continues` / `reopen_sees_final`: a new 16-bit mono WAV meets `NoPad` and `CfgOf` -/
-example : ∃ h s, openHandle 0 {} .rw 0x010002 1 8000 = .ok h s ∧ NoPad h ∧ CfgOf 0x010002 1 8000 h := by
-  refine ⟨_, _, rfl, by intro _; decide, open_rw_cfg 0 {} 0x010002 1 8000 _ _ rfl (Or.inl rfl)⟩
+/-- `reopen_rdwr_continues` / `reopen_sees_final`: a new 16-bit mono WAV meets `CfgOf` -/
+example : ∃ h s, openHandle 0 {} .rw 0x010002 1 8000 = .ok h s ∧ CfgOf 0x010002 1 8000 h := by
+  refine ⟨_, _, rfl, open_rw_cfg 0 {} 0x010002 1 8000 _ _ rfl (Or.inl rfl)⟩
 
 /-- `prepopulated_opens_rdwr`: C04's AU session (stereo 16-bit, three frames) meets the hypotheses -/
 example : (∃ h0 s0, openHandle 0 {} .w 0x030002 2 44100 = .ok h0 s0) ∧ (∀ op ∈ C04.exOps, op.valid (2 : Int).toNat) ∧
-    (∀ c, openCfg 0x030002 2 44100 = some c → c.hasPeak = false ∧ (c.container = .wav → False)) := by
+    (∀ c, openCfg 0x030002 2 44100 = some c → c.container = .wav → False) := by
   refine ⟨OpenRes.exists_of_isOk (by decide), by decide, ?_⟩
   intro c hc
   obtain ⟨f1, _⟩ := openCfg_facts hc
   have h0 : containerOf 0x030002 = some Container.au := by decide
   have hcc : c.container = .au := (Option.some.inj (f1.symm.trans h0))
-  exact ⟨by simp [Cfg.hasPeak, hcc], fun hw => by rw [hcc] at hw; cases hw⟩
+  exact fun hw => by rw [hcc] at hw; cases hw
 
-/-! ### the pad byte: why `NoPad` is asked for -/
+/-- `prepopulated_opens_rdwr` on a PEAK-carrying file: two float frames written into a new mono float WAV in SFM_WRITE mode;
+    the session is valid, stays below the RIFF limit, and the file re-opened SFM_RDWR does carry a PEAK table (one
+    entry, in front of the data) — the case the invariant admits since round 3 (`PeakOk`) -/
+def pkOps : List SOp := [.write ⟨.f32, true, 2, [0x3F000000, 0xBF800000]⟩]
+def pkReopen : Option (Int × Option Nat × Bool) :=
+  match sessionBytes 0 0x010006 1 8000 pkOps with
+  | some bs => (match openHandle 0 ⟨bs, 0⟩ .rw 0 0 0 with
+      | .ok h _ => some (h.frames, h.peak.map List.length, h.peakAtStart)
+      | _ => none)
+  | none => none
+example : (∀ op ∈ pkOps, op.valid (1 : Int).toNat) ∧ pkReopen = some (2, some 1, true) := by decide +kernel
+
+/-! ### the pad byte -/
 
 def okDataend : OpenRes → Int
   | .ok h _ => h.dataend
@@ -463,42 +524,35 @@ def oddWav : List Byte :=
   | .ok h s => (closeHandle (runR h s [.write .s16 true [256]]).1 (runR h s [.write .s16 true [256]]).2).bytes
   | _ => []
 
-/-- witness: the file is 46 bytes (44 header, 1 data, 1 pad); re-opened SFM_RDWR its handle has `dataend = 45 ≠ 0`,
-    so it is not "tight" — the invariant (not the library) excludes it: the byte behind the data is the zero pad -/
+/-- the file is 46 bytes (44 header, 1 data, 1 pad); re-opened SFM_RDWR its handle has `dataend = 45 ≠ 0` and the store
+    holds one byte behind the data — the case the invariant admits since round 3 (`TailOk`) -/
 theorem odd_wav_reopens_with_dataend :
     oddWav.length = 46 ∧ okDataend (openHandle 0 ⟨oddWav, 0⟩ .rw 0 0 0) = 45 := by decide +kernel
-
-/-- `reopen_rdwr_continues` without the `NoPad` side condition -/
-def reopen_rdwr_continues_full : Prop :=
-  ∀ (h : H) (s : Store) (fmt : Nat) (ch sr : Int), RwInv h s → CfgOf fmt ch sr h → sr ≤ 0x7FFFFFFF →
-    (h.container = .wav → h.frames * (h.bw : Int) < 0xFFFFFFFF) → ∀ ix pos : Nat,
-    ∃ h' s', openHandle ix ⟨(closeHandle h s).bytes, pos⟩ .rw fmt ch sr = .ok h' s' ∧ RwInv h' s'
 
 def oH : H := match openHandle 0 {} .rw 0x010005 1 8000 with | .ok h _ => h | _ => default
 def oS : Store := match openHandle 0 {} .rw 0x010005 1 8000 with | .ok _ s => s | _ => default
 theorem oH_opened : openHandle 0 {} .rw 0x010005 1 8000 = .ok oH oS := by rfl
 
-/-- witness: the one-frame 8-bit mono WAV above.  Not a defect of the library (the byte behind the data is the zero pad the
-    RIFF format asks for, and the second session works); what is missing is an invariant that admits a zero tail. -/
-theorem reopen_rdwr_continues_full_fails : ¬ reopen_rdwr_continues_full := by
-  intro hfull
+/-- non-vacuity of `reopen_rdwr_continues` on the pad-byte case: the one-frame 8-bit mono WAV, closed and opened SFM_RDWR
+    again, satisfies the invariant and stands for its one frame; a read of 3 frames there runs into the pad byte: one
+    frame delivered, the other two cells ZERO (not the untouched pattern) — `readFill` -/
+theorem odd_wav_second_session :
+    ∃ h' s', openHandle 0 ⟨(closeHandle (runR oH oS [.write .s16 true [256]]).1 (runR oH oS [.write .s16 true [256]]).2).bytes, 0⟩
+        .rw 0x010005 1 8000 = .ok h' s' ∧ RwInv h' s' ∧ (absOf h' s').frames = [[129]] ∧ (absOf h' s').wpos = 1 := by
   have inv0 : RwInv oH oS := RwInv_open 0 {} 0x010005 1 8000 oH oS oH_opened (open_fresh_tight 0 {} 0x010005 1 8000 oH oS oH_opened rfl)
   have cfg0 := open_rw_cfg 0 {} 0x010005 1 8000 oH oS oH_opened (Or.inl rfl)
   have hok : ∀ op ∈ [ROp.write .s16 true [256]], op.ok oH := by decide
   obtain ⟨inv1, sc⟩ := RwInv_runR [ROp.write .s16 true [256]] oH oS inv0 hok
-  obtain ⟨h', s', ho, inv'⟩ := hfull _ _ 0x010005 1 8000 inv1 (cfg0.congr sc) (by decide) (fun _ => by decide) 0 0
-  have hd : okDataend (openHandle 0 ⟨(closeHandle (runR oH oS [.write .s16 true [256]]).1 (runR oH oS [.write .s16 true [256]]).2).bytes, 0⟩ .rw 0x010005 1 8000) = 45 := by
-    decide +kernel
-  rw [ho] at hd
-  have := inv'.gives.2.2.2.2.2.2.2.2.1
-  simp only [okDataend] at hd
-  omega
-/-- what holds: `reopen_rdwr_continues` — RAW, AU, and WAV whose data section ends on an even offset -/
-theorem reopen_rdwr_continues_partial (h : H) (s : Store) (inv : RwInv h s) (fmt : Nat) (ch sr : Int)
-    (cfg : CfgOf fmt ch sr h) (hsr : sr ≤ 0x7FFFFFFF) (hguard : h.container = .wav → h.frames * (h.bw : Int) < 0xFFFFFFFF)
-    (hnp : NoPad h) (ix pos : Nat) :
-    ∃ h' s', openHandle ix ⟨(closeHandle h s).bytes, pos⟩ .rw fmt ch sr = .ok h' s' ∧ RwInv h' s' :=
-  let ⟨h', s', ho, i, _⟩ := reopen_rw_effect h s inv cfg hsr hguard hnp ix pos
-  ⟨h', s', ho, i⟩
+  obtain ⟨h', s', ho, inv', ha, _⟩ := reopen_rdwr_continues _ _ inv1 0x010005 1 8000 (cfg0.congr sc) (by decide)
+    (fun _ => by decide) 0 0
+  refine ⟨h', s', ho, inv', ?_, ?_⟩
+  · rw [ha]; decide
+  · rw [ha]; decide
+
+def padRead : Out :=
+  match openHandle 0 ⟨oddWav, 0⟩ .rw 0x010005 1 8000 with
+  | .ok h s => (stepAny h s ((ROp.read .s16 true 3).toOp h)).2.2
+  | _ => {}
+example : padRead.ret = 1 ∧ padRead.data = [256, 0, 0] := by decide +kernel
 
 end Sf.C08Refine
